@@ -8,8 +8,8 @@ DONE = {
  "C16": ("exploration", "child-process crash monitor: exit status of each list operation on a fixed-size thread stack; minimal-stack bisection n=10^3 vs 10^6",
          "36 list-walking operations of the public API (parse, next_datum, print, Display, to_vec family, iterators, get/index, predicates, clone, ==, drop, Datum clone/==/drop/walk/into-value, serde to_value/from_value/to_string/from_str), on proper and dotted lists built by constructors, parser and Serde, each run in its own child process of the hook-free release and dev builds on a 2 MiB thread with 10^6 (thorough: also 4x10^6) elements; the exit status (normal / SIGSEGV / SIGABRT 'has overflowed its stack') is the observation. Thorough bisects the minimal stack for 10^3 elements and requires 10^6 elements to fit in that + 32 KiB.",
          "trusted: exit-status interpretation; results are specific to this toolchain's frame sizes, the verdict only needs 'does not grow with n'", "4/C16"),
- "C04": ("exploration", "Rust-side equality monitor over a 46-type Serde family through four serialization routes",
-         "Each of 46 concrete types (every Serde data-model category plus the shape-ambiguous nestings) has a recursive generator; values go through to_value/from_value (NaN and infinities included, compared by bits) and through text with the default printer/parser via str, bytes and writer/reader (finite floats, C05 rule) and must come back equal on the Rust side.",
+ "C04": ("exploration", "Rust-side equality monitor over a 67-type Serde family through four serialization routes",
+         "Each of 67 concrete types (every Serde data-model category plus the shape-ambiguous nestings) has a recursive generator; values go through to_value/from_value (NaN and infinities included, compared by bits) and through text with the default printer/parser via str, bytes and writer/reader (finite floats, C05 rule) and must come back equal on the Rust side.",
          "trusted: serde_derive; per-type equality functions", "4/C04"),
  "C14": ("exploration", "documented-shape differential: to_value(x) vs a hand-written shape function; alternative and corrupted encodings at every Seq/Tuple position",
          "For each type of the family a shape function written from the crate documentation yields an annotated tree; its canonical rendering must equal to_value(x) structurally. For sampled Seq/Tuple positions the documented alternative encoding (vector for sequence, proper list for tuple) must deserialize to x, and an improper list or a wrong kind in that position must fail with a Data-category error without panicking.",
@@ -68,21 +68,21 @@ MORE = {
   "C01": " Added: values shaped like quotation forms; 120-127 enclosing compounds around every kind of leaf; names that look like non-finite floats or case variants of nil/t; exhaustive enumeration of all 147k non-ASCII alphabetic scalars in identifier positions (both tiers); one 65 KiB-1.5 MiB atom followed by more atoms; sinks accepting 1 and 3 bytes per call.",
  "C02": " Added: byte vectors, strings, names, lists and vectors of 2^k-1..2^k+1 elements; 130-420 siblings dominated by one kind of empty compound/atom.",
   "C03": " Added: 40 sigils / token openers and 21 (opener, repeated unit) pairs inside one token repeated 3x10^5 / 10^6 times, default and Emacs options; literals whose written + implied exponent lands within 3 of the i32 limits; 16 un-nested units repeated 2.5x10^5 / 10^6 times (comment lines, blanks, small datums) in child processes; panics raised inside core/std are attributed to the library by backtrace.",
- "C04": " Added: the _custom text routes (all routes must also print the same text); borrowed targets; a 65 KiB-1.2 MiB string followed by more strings; ALL 2^32 f32 bit patterns through to_value/from_value in thorough (2^24 slice in quick); collections of 2^k-1..2^k+1 elements.",
+ "C04": " Added: the _custom text routes (all routes must also print the same text); borrowed targets; a 65 KiB-1.2 MiB string followed by more strings; ALL 2^32 f32 bit patterns through to_value/from_value in thorough (2^24 slice in quick); collections of 2^k-1..2^k+1 elements. Round 7: nine more types -- unit-variant enum, tuple and Option as map keys, Option<Option<Option<bool>>>, enum inside Option inside map value, a recursive struct (Nest) holding an enum-keyed map, Vec<(Option<()>, Vec<()>)>.",
   "C05": " Added: exponents padded with 1-30 leading zeros, fractions with 1-45 leading zeros, 70 KB-1 MB literals whose huge exponent is compensated by the digit string; the decimal point at every position of every boundary integer's digits with round-down/half/up tails and exponents.",
   "C06": " Added: faults that are persistent, transient-then-resume or transient-then-EOF in rotation; every named entry point (lexpr::from_*, *_elisp, datum::from_*, Parser::from_* with current and deprecated method names) against its _custom sibling with and without injected faults; is_io/is_syntax/is_eof vs classify(); serde_lexpr stream entry points under faults (category, source chain, io::Error conversion); lead-ins such as BOM/NUL; tokens of 2^k-1..2^k+1 bytes.",
  "C07": " Added: one Printer reused after a transient sink error and for several values (also as io::Write); sizes around powers of two; serde_lexpr::to_writer sink errors must come back as Io-category errors carrying the sink's error.",
   "C08": " Added: five contexts under quotation shorthands with a shape clause independent of the classifier; digit-initial names with a trailing colon; every option set assembled by random routes through the builder API (any constructor, setters in random order, keyword syntaxes as a set with repetitions or one by one): query methods and probe readings must not depend on the route; Options::default()/elisp() against the documented sets; value and datum API compared per (input, option set).",
-  "C09": " Added: 14 unquote expression shapes (tuple literal, arithmetic, cast, if, method call, macro call, slice, field) in element/tail/vector positions; every punctuation symbol between, before and after identifiers and numbers; float spellings 1E5 / 1e+5 / 2.5E+3; 20 caller variables with expansion-prone names (tail, head, list, vec, value, ...) in every unquote position of 10 compound shapes.",
+  "C09": " Added: 14 unquote expression shapes (tuple literal, arithmetic, cast, if, method call, macro call, slice, field) in element/tail/vector positions; every punctuation symbol between, before and after identifiers and numbers; float spellings 1E5 / 1e+5 / 2.5E+3; 20 caller variables with expansion-prone names (tail, head, list, vec, value, ...) in every unquote position of 10 compound shapes. Round 7: 11x11 matrix of atom kinds (#:kw, :kw, #:\"kw\", #\"sym\", identifier, integer, float, string, char, #t, #nil) adjacent to one another and separated by each of 14 punctuation symbols, in lists, vectors, dotted lists and nested lists (~2.6k directed invocations).",
   "C10": " Added: streams that report end of input and then deliver more (four iteration styles polled in parallel); lock-step continuation after errors on two parsers incl. the two nesting budgets; near-limit nesting.",
  "C11": " Added: spans re-read with expect_end() calls interleaved; spans of Datum::clone() and Datum::from(Ref) must equal the original's; line numbers and byte columns beyond 255 / 65535.",
   "C12": " Added: CR inside comment bodies; string literals adjacent to other tokens without trivia; digit-initial names in Emacs-dialect sequences; long flat streams (2x10^5 / 10^6 items or trivia lines) read item by item in child processes of the mon and dev builds with the exact item count as oracle; adaptors polled repeatedly after an error; comment bodies with NUL, FF, ESC, BOM.",
   "C13": " Added: non-finite spellings and radix literals beyond 2^1024 in the accepted-text corpus; second printer choice mirror_alt(Q); every lenient token also under each quotation shorthand and as a dotted tail; near-limit nesting.",
- "C14": " Added: look-alike wrong kinds (the items as a byte vector or string, empty byte vector/string) and the last item as dotted tail; KvMap driving serialize_key/serialize_value separately.",
+ "C14": " Added: look-alike wrong kinds (the items as a byte vector or string, empty byte vector/string) and the last item as dotted tail; KvMap driving serialize_key/serialize_value separately. Round 7: the nine additional family types of C04 (composite map keys, recursive struct) with their documented shapes.",
   "C15": " Added: constructors fed lazy iterators (filter, from_fn, take_while, skip_while); list-valued keys that are prefixes of one another; lists built through Cons::new + the four mutators; indices 2^k+j (aliases under truncation); names that look like printed forms of other keys; the empty list.",
  "C16": " Added: operations over nil/null/string/pair/quoted/vector elements; eq on lists differing everywhere / at the end; full dotted-pair notation (1 . (1 . ...)).",
   "C17": " Added: ill-formed bytes followed by two or more escapes and plain text; the same parser asked again after each error (str, slice, stream; value and datum); 40 failing prefixes followed by multi-byte characters; tokens whose multi-byte character straddles 128/256/.../8192 bytes; Miri workload 810 inputs incl. resumed parsers and owned datum copies.",
-  "C18": " Added: all 2^32 f32 bit patterns (thorough) through the self-consistency clause; 10^6-element lists in skipped positions (unknown struct field, IgnoredAny, Option, map value) in child processes on a 2 MiB stack; deserialize_any-driven targets (serde_json::Value, IgnoredAny, untagged enum) for the totality clause; strings of 60-1030 bytes with multi-byte characters at buffer-size offsets; coherence of the data error object (Display, location, source, io kind).",
+  "C18": " Added: all 2^32 f32 bit patterns (thorough) through the self-consistency clause; 10^6-element lists in skipped positions (unknown struct field, IgnoredAny, Option, map value) in child processes on a 2 MiB stack; deserialize_any-driven targets (serde_json::Value, IgnoredAny, untagged enum) for the totality clause; strings of 60-1030 bytes with multi-byte characters at buffer-size offsets; coherence of the data error object (Display, location, source, io kind). Round 7: the nine additional family types of C04 as deserialization targets.",
  "C19": " Added: signatures carry the set of misreporting entry points; read failures of 8 kinds must come back as Io or as the already-determined outcome; error locations beyond line/column 65535.",
   "C20": " Added: comparisons with views into the value's own text (aliasing); comparison operands 1 and 2 ulp away from the value's as_f64 and the neighbours of its f32 rounding.",
 }
